@@ -412,7 +412,9 @@ class Label(Harness):
         if isinstance(t['ret'], Exc) or isinstance(j['ret'], Exc):
             return {'exc': t['ret'] if isinstance(t['ret'], Exc) else j['ret']}
         tl = [ln for ln in t['lines'] if OL._starts(ln, '(gen) target: ')]
-        return {'text': tl, 'json': j['doc'].get('target')}
+        # the JSON label read back with the tool's own target syntax (what a user would paste into a targets file)
+        back = guarded(M.utils.Utils.parse_host_and_port, j['doc'].get('target'), 22)
+        return {'text': tl, 'json': j['doc'].get('target'), 'json_back': back if isinstance(back, Exc) else (back[0], back[1])}
 
     def check(self, inp, obs):
         if 'skip' in obs:
@@ -431,7 +433,9 @@ class Label(Harness):
             is22 = port == 22
             ok = s_or(s_and(is22, tl[0] == '(gen) target: ' + host), s_and(s_not(is22), tl[0] == '(gen) target: ' + with_port))
         yield 'text-label', ok
-        yield 'json-target', obs['json'] == host + ':' + pd
+        # the JSON label denotes the same (host, port) under the tool's own spelling rules (an IPv6 address needs its brackets: 'fe80::1:2222' is another host)
+        jb = obs['json_back']
+        yield 'json-target-denotes-the-same-target', (not isinstance(jb, Exc)) and bool(jb[0] == host) and bool(jb[1] == port)
 
 
 class PolicyLabel(Harness):
